@@ -42,6 +42,8 @@ def seq_families(tier):
     nre = dict(maxData=2, maxTop=2, maxPull=0, allowFail=False, reentrant=True)
     for kind in ("merge", "concat", "combine"):
         F[kind + "2_re"] = (scen.with_bounds(scen.nary(kind, 2, mode="push"), kind, **nre), None)
+    F["merge2_late_re"] = (scen.with_bounds(scen.nary("merge", 2, mode="push", late=True), "merge", maxData=1, maxTop=3,
+                                            maxPull=0, allowFail=False, reentrant=True), None)
     F["flatten2_re"] = (scen.with_bounds(scen.flatten_g(2, "push", "push"), "flatten", maxData=2, maxTop=3,
                                          maxPull=0, allowFail=False, reentrant=True), None)
     F["share2_re"] = (scen.with_bounds(scen.share_g("push"), "share", sinks=["probe", "probe"], maxData=2,
